@@ -1704,6 +1704,11 @@ func (l *Lowerer) literalHasSuffix(lit *parser.Literal) bool {
 		return true
 	}
 	last := v[len(v)-1]
+	if lit.Kind == parser.TokenIntLiteral {
+		// Integer literals only take the i / u suffixes; a trailing f in a
+		// hexadecimal literal (0x1f) is a digit.
+		return last == 'i' || last == 'u'
+	}
 	switch last {
 	case 'i', 'u', 'h':
 		return true
